@@ -62,6 +62,10 @@ TIE_STARTS = [
     '+A +B +C |100 Ao Bo Co |105 Ax Bx Cr Ax Bx Ax Bx',                       # tie with a retired member
     '+A +B +C +D |100 Ao Bo Co Dx Do |105 Ax Bx Cx Dx Ax Bx Cx Dx Ax Bx Cx Dx',  # three tied + one lower (4 athletes)
     '+A +B |100 Ax Ao Bx Bo |105 Ax Bx Ax Bx Ax Bx',                          # two tied with failures on the card
+    # a member of the tie went out one height EARLIER than the others (who passed it): flags left over from the earlier
+    # height meet the re-instatement (seed C02-e was caught or missed depending on the sampled witnesses until these starts)
+    '+A +B |100 Ao Bo |105 Ax Ax Ax B- |110 Bx Bx Bx',
+    '+A +B +C |100 Ao Bo Co |105 Ax Ax Ax B- C- |110 Bx Cx Bx Cx Bx Cx',
 ]
 
 
@@ -374,6 +378,12 @@ def run(pid, tier):
                          extras or i % 5 == 0))
         for calls in repo_scenarios():
             jobs.append(('full', calls, None, True))
+        # the constructed tie starts themselves, step by step, with the whole alphabet probed after every step (the models
+        # sample their witnesses; the state in which the tie has just been declared must not depend on the sample)
+        for t in TIE_STARTS:
+            st = script(t)
+            nath = sum(1 for c in st if c['op'] == 'add')
+            jobs.append(('full', st, alphabet(nath, [95, 100, 105, 110]) if pid == 'C02' else None, True))
         # the recorded findings are reproduced on the real code in every run (canonical histories)
         for t in KNOWN_FINDING_HISTORIES[pid]:
             jobs.append(('full', expand(t), alphabet(3, [95, 100, 105, 110]) if pid == 'C02' else None, True))
